@@ -268,6 +268,27 @@ func GenWorldCfg(g *Rng, opt GenOpts) (World, map[string]any) {
 			w.Env["VERIF_DEP"] = "envdep"
 			cfg["depends"] = append(cfg["depends"].([]any), "${VERIF_DEP}")
 		}
+		emptyP := 0.3
+		if opt.SharedBias {
+			emptyP = 0.6
+		}
+		if x.feat("list_item_expands_to_nothing", emptyP) {
+			// an optional entry whose variable is empty: dropped by the parser,
+			// which leaves the list it was in with spare capacity
+			w.Env["VERIF_EMPTY"] = ""
+			if _, ok := cfg["provides"]; !ok {
+				cfg["provides"] = []any{"virtualpkg"}
+			}
+			for _, k := range []string{"depends", "recommends", "suggests", "conflicts", "replaces", "provides"} {
+				l, ok := cfg[k].([]any)
+				if !ok || !g.Bool(0.7) {
+					continue
+				}
+				pos := g.Intn(len(l) + 1)
+				l = append(append(append([]any{}, l[:pos]...), "${VERIF_EMPTY}"), l[pos:]...)
+				cfg[k] = l
+			}
+		}
 		if x.feat("duplicate_relations", 0.25) {
 			// adjacent identical entries (two variables expanding to the same
 			// package, a copy-paste): legal, and kept as written
@@ -713,7 +734,11 @@ func GenWorldCfg(g *Rng, opt GenOpts) (World, map[string]any) {
 		archBlock["pkgbase"] = "verifbase"
 		archBlock["packager"] = "Verif Arch <arch@verif.invalid>"
 	}
-	if x.feat("ipk_block", 0.3) {
+	ipkP := 0.3
+	if opt.SharedBias {
+		ipkP = 0.6
+	}
+	if x.feat("ipk_block", ipkP) {
 		ipkBlock["abi_version"] = "3"
 		ipkBlock["tags"] = []any{"t1", "t2"}
 		ipkBlock["fields"] = map[string]any{"Bugs": "https://verif.invalid/bugs", "Priority": "should-be-stripped", "Zz-Custom": "z"}
@@ -723,7 +748,11 @@ func GenWorldCfg(g *Rng, opt GenOpts) (World, map[string]any) {
 	}
 
 	// ---- signing -------------------------------------------------------------
-	sign := opt.ForceSign || (!opt.NoSigning && x.g.Bool(0.3))
+	signP := 0.3
+	if opt.SharedBias {
+		signP = 0.45 // signing helpers are code shared by deb and rpm
+	}
+	sign := opt.ForceSign || (!opt.NoSigning && x.g.Bool(signP))
 	if opt.NoSigning {
 		sign = false
 	}
@@ -764,7 +793,11 @@ func GenWorldCfg(g *Rng, opt GenOpts) (World, map[string]any) {
 		for k, v := range sig {
 			debSig[k] = v
 		}
-		switch g.Intn(5) {
+		mth := g.Intn(5)
+		if opt.SharedBias && g.Bool(0.3) {
+			mth = 3 // dpkg-sig: the method with the most code of its own
+		}
+		switch mth {
 		case 0:
 			debSig["type"] = "origin"
 		case 1:
